@@ -153,4 +153,16 @@ PROPS = {
         "exhaustive": False,
         "assumptions": ["ticks are non-decreasing"],
     },
+    "C18": {
+        "thm": "SameVerif.Thm.C18",
+        "suites": ["sigreset"],
+        "spec_filter": r"^spec\.c18\.",
+        "technique": "Lean 4 theorem on a field-level model of every component's new()/reset() (reset s equals init cfg in every live field, for ANY state) + proof in the link model that the one differing field (equalizer mode) is dead (train() precedes the next use) + field-by-field Debug comparison and event/timestamp comparison against a fresh receiver after resets swept through every phase",
+        "level_text": "Proved in Lean: in the field model mirroring DCBlocker/Agc/FskDemod/TimingLoop/CodeAndPowerSquelch/Equalizer/Framer/Assembler/SameReceiver reset code, reset() of ANY state equals a freshly built receiver of the same configuration in every field except the equalizer's training mode; in the link model a receiver whose byte clock is stopped (which reset() and end() guarantee) always re-synchronises first, and a re-synchronisation calls train() before the equalizer is used, so that field cannot influence behaviour. "
+                      "Tie (this is the sharp part): after prefixes cut at every phase of a transmission (idle, lead-in, mid-preamble, mid-burst, message pending, hold running, after the report, mid-trailer, random) the real receiver is reset and (i) its Debug rendering is compared field by field with a fresh one modulo exactly the field proved dead, (ii) its events with timestamps on a subsequent clean or impaired transmission are compared with a fresh receiver's; the post-reset run is also replayed on the link/transport models.",
+        "level_note": "The field model is hand-written from the reset() methods; its tie to the code is the Debug comparison (sampled over histories, exact per field). Genuine defect F3 found by this check was repaired by a fix: commit (AGC initial gain, timing-loop bandwidth).",
+        "rule": "per case: rate in {8000, 22050, 44100}, library-default or samedec configuration, a complete transmission as prefix, reset point by phase (10 phases, cyclic), subsequent transmission with its own random line conditions starting 0..0.3 s after the reset. Non-trivial = every case; distinct by request text.",
+        "exhaustive": False,
+        "assumptions": ["f32 DSP is a deterministic function of the component states (same state + same input => same output): holds for safe Rust without interior randomness"],
+    },
 }
